@@ -33,6 +33,10 @@ pub struct ArchiveSpec {
     /// nevertheless stored compressed (the format only says: stored size == source size
     /// means raw; bita's own writer never does this, another tool may).
     pub keep_bigger_share: u64,
+    /// An encoder that does not deduplicate: one descriptor and one stored copy per chunk
+    /// OCCURRENCE (rebuild order 0, 1, 2, ...), so several descriptors share a checksum. The
+    /// schema does not forbid it; bita's own writer never does it.
+    pub no_dedup: bool,
     pub metadata: Vec<(String, Vec<u8>)>,
     pub app_version: String,
 }
@@ -51,6 +55,7 @@ impl ArchiveSpec {
             layout_seed: 1,
             raw_share: 0,
             keep_bigger_share: 0,
+            no_dedup: false,
             metadata: vec![],
             app_version: "r2-encoder".into(),
         }
@@ -61,7 +66,7 @@ impl ArchiveSpec {
             self.cfg.describe(), self.hash_len, self.comp, self.style.legacy_magic, self.style.unpacked_order,
             self.style.unknown_fields, self.style.explicit_defaults, self.style.reverse_fields, self.slack,
             self.order, self.max_pad, self.trailing, self.raw_share, self.metadata.len()
-        ) + &format!(" keep_bigger={}/8", self.keep_bigger_share)
+        ) + &format!(" keep_bigger={}/8 no_dedup={}", self.keep_bigger_share, self.no_dedup)
     }
 }
 
@@ -95,10 +100,15 @@ pub fn encode_archive(source: &[u8], spec: &ArchiveSpec) -> Result<Encoded, Stri
     let mut order: Vec<u32> = Vec::new();
     for &(o, l) in &chunks {
         let h = b2(&source[o..o + l]);
-        let idx = *index.entry(h).or_insert_with(|| {
+        let idx = if spec.no_dedup {
             uniq.push((o, l));
             (uniq.len() - 1) as u32
-        });
+        } else {
+            *index.entry(h).or_insert_with(|| {
+                uniq.push((o, l));
+                (uniq.len() - 1) as u32
+            })
+        };
         order.push(idx);
     }
     // Stored representation per unique chunk.
